@@ -94,6 +94,14 @@ CLAIMED["C14"] = dict(
     note="orders <= 2/4 (Cartesian), l <= 2/3 (pure), <= 3 symbolic centres; angles are unit-circle pairs so poles / axes are forked, not excluded; fixed: 1-D Cartesian orders",
     ref="DESIGN.md#c14")
 
+CLAIMED["C06"] = dict(
+    text="Assume/guarantee: lemma jobs discharge on the real _switch_func (one step: range, strict monotonicity, oddness, fixed points; order k = k-fold composition), _calculate_alpha (|a| <= 0.45, antisymmetry) and the "
+         "nu-map; main jobs execute generate_weights / compute_atom_weight / compute_weights / __call__ (real chunking) with the switching polynomial cut to an uninterpreted function carrying that contract and "
+         "np.linalg.norm replaced by the metric contract: sum_A w_A = 1, 0 <= w <= 1, w_A(nucleus A) = 1 and w_A(nucleus B) = 0, equality of all routes for EVERY segmentation, relabelling, in-place edits of "
+         "the geometry on one instance; Hirshfeld = pro-atom density share on every segmentation incl. empty segments.",
+    note="N <= 4 (quick) / 5 atoms incl. elements without Bragg radius; distances are metric symbols (Euclidean realisation assumed); range clause only for N <= 3; pro-atom splines uninterpreted",
+    ref="DESIGN.md#c06")
+
 NOT_APPLICABLE = {
     "C02": "no symbolic input: validating 450 shipped data files against harmonics up to degree 325 is floating-point enumeration of concrete runs, outside solver-based checking and outside solver reach (the table/lookup half is decided in C12)",
 }
